@@ -23,7 +23,7 @@ type c15Case struct {
 
 var c15EditKinds = []string{"EP", "EC", "EL"}
 var c15Policies = []string{"adv", "eq", "back", "zero"}
-var c15Other = []string{"TP", "TC", "TL", "IP", "IC"}
+var c15Other = []string{"TP", "TC", "TL", "IP", "IC", "FP", "BP", "FC", "FL"} // F*: front-matter-only edit, BP: body-only edit (mtime advances)
 var c15Renders = []string{"R1", "R2", "R3"}
 
 func c15Alphabet() []string {
@@ -73,7 +73,7 @@ func init() {
 
 func (p *c15) ID() string { return "C15" }
 func (p *c15) Rule() string {
-	return "histories over a 20-symbol alphabet {edit page/component/layout x mtime policy (advance, equal, backwards, zero), delete/recreate page/component/layout, make page/component invalid (bad YAML), render via Load().Render / RenderFile / Vue.Render} on a page with front-matter + include + layout; exhaustive for length <=3 (quick) / <=4 (thorough) each followed by the three renders, plus seeded histories of length 6-20; after every render step the long-lived engine's (bytes, error-ness) is compared with a fresh engine; cache hit/miss/store hook counts prove which comparisons were answered from the cache; non-trivial = history containing at least one edit followed by a render; distinct by the op list"
+	return "histories over a 24-symbol alphabet {edit page/component/layout x mtime policy (advance, equal, backwards, zero), front-matter-only and body-only edits, delete/recreate page/component/layout, make page/component invalid (bad YAML), render via Load().Render / RenderFile / Vue.Render} on a page with front-matter + include + layout; exhaustive for length <=3 (quick) / <=4 (thorough) each followed by the three renders, plus seeded histories of length 6-20; after every render step the long-lived engine's (bytes, error-ness) is compared with a fresh engine; cache hit/miss/store hook counts prove which comparisons were answered from the cache; non-trivial = history containing at least one edit followed by a render; distinct by the op list"
 }
 
 func (p *c15) exh(ctx core.Ctx) int {
@@ -121,6 +121,7 @@ func (p *c15) Decode(raw json.RawMessage) (any, error) { return core.JSONDecode[
 
 type c15Version struct {
 	n      int
+	fv, bv int // version stamps of the front-matter and of the body
 	exists bool
 	data   string
 	mtime  time.Time
@@ -129,6 +130,8 @@ type c15Version struct {
 type c15World struct {
 	fs      fstest.MapFS
 	version int
+	keepFV  int // writePart: front-matter / body version to keep (0 = new)
+	keepBV  int
 	mtime   map[string]time.Time
 	hist    map[string][]c15Version // every version ever written, oldest first
 }
@@ -161,20 +164,20 @@ const (
 	c15Lay  = "layouts/lay.vuego"
 )
 
-func c15Content(file string, v int, valid bool) string {
+func c15Content(file string, fv, v int, valid bool) string {
 	switch file {
 	case c15Page:
 		if !valid {
 			return fmt.Sprintf("---\n: : [bad %d\n---\n<p>x</p>", v)
 		}
-		return fmt.Sprintf("---\nlayout: lay\nfm: F%d\n---\n<main data-p=\"P%d\">{{ fm }} <template include=\"c.vuego\"></template></main>", v, v)
+		return fmt.Sprintf("---\nlayout: lay\nfm: F%d\n---\n<main data-p=\"P%d\">{{ fm }} <template include=\"c.vuego\"></template></main>", fv, v)
 	case c15Comp:
 		if !valid {
 			return fmt.Sprintf("---\n: : [bad %d\n---\n<p>x</p>", v)
 		}
-		return fmt.Sprintf("---\ncfm: CF%d\n---\n<section data-c=\"C%d\">{{ cfm }}</section>", v, v)
+		return fmt.Sprintf("---\ncfm: CF%d\n---\n<section data-c=\"C%d\">{{ cfm }}</section>", fv, v)
 	default:
-		return fmt.Sprintf("---\nlfm: LF%d\n---\n<html><body data-l=\"L%d\">{{ lfm }} {{ fm }}<div v-html=\"content\"></div></body></html>", v, v)
+		return fmt.Sprintf("---\nlfm: LF%d\n---\n<html><body data-l=\"L%d\">{{ lfm }} {{ fm }}<div v-html=\"content\"></div></body></html>", fv, v)
 	}
 }
 
@@ -184,6 +187,23 @@ func newC15World() *c15World {
 		w.write(f, true, "adv")
 	}
 	return w
+}
+
+// writePart rewrites only the front-matter ("fm") or only the body ("body") of a file.
+func (w *c15World) writePart(file, part string) {
+	h := w.hist[file]
+	if len(h) == 0 || !h[len(h)-1].exists {
+		w.write(file, true, "adv")
+		return
+	}
+	w.keepFV, w.keepBV = 0, 0
+	if part == "fm" {
+		w.keepBV = h[len(h)-1].bv
+	} else {
+		w.keepFV = h[len(h)-1].fv
+	}
+	w.write(file, true, "adv")
+	w.keepFV, w.keepBV = 0, 0
 }
 
 func (w *c15World) write(file string, valid bool, policy string) {
@@ -207,9 +227,16 @@ func (w *c15World) write(file string, valid bool, policy string) {
 	case policy == "zero":
 		mt = time.Time{}
 	}
-	data := c15Content(file, w.version, valid)
+	fv, bv := w.version, w.version
+	if w.keepFV != 0 {
+		fv = w.keepFV
+	}
+	if w.keepBV != 0 {
+		bv = w.keepBV
+	}
+	data := c15Content(file, fv, bv, valid)
 	_ = present
-	w.hist[file] = append(w.hist[file], c15Version{n: w.version, exists: true, data: data, mtime: mt})
+	w.hist[file] = append(w.hist[file], c15Version{n: w.version, fv: fv, bv: bv, exists: true, data: data, mtime: mt})
 	w.mtime[file] = mt
 	w.fs[file] = &fstest.MapFile{Data: []byte(data), Mode: 0o644, ModTime: mt}
 }
@@ -269,6 +296,14 @@ func (p *c15) Exec(ctx core.Ctx, cc any) core.Obs {
 			} else {
 				w.write(f, true, "adv")
 			}
+		case "FP":
+			w.writePart(c15Page, "fm")
+		case "BP":
+			w.writePart(c15Page, "body")
+		case "FC":
+			w.writePart(c15Comp, "fm")
+		case "FL":
+			w.writePart(c15Lay, "fm")
 		case "IP":
 			w.write(c15Page, false, "adv")
 		case "IC":
@@ -335,7 +370,7 @@ func (p *c15) matchesAlternative(w *c15World, kind, out string, err error, o *co
 		}
 		total *= len(acc)
 		for _, v := range acc {
-			okVersions[v.n] = true
+			okVersions[v.n], okVersions[v.fv], okVersions[v.bv] = true, true, true
 		}
 	}
 	if total <= 1 {
